@@ -35,6 +35,8 @@ fn run_check(id: &str, rep: &mut Report) -> bool {
         "C01" => checks::c01::run(rep),
         "C03" => checks::c03::run(rep),
         "C04" => checks::c04::run(rep),
+        "C06" => checks::c06::run(rep),
+        "C07" => checks::c07::run(rep),
         "C08" => checks::c08::run(rep),
         "C19" => checks::c19::run(rep),
         "C20" => checks::c20::run(rep),
@@ -98,6 +100,8 @@ fn main() {
                 "C01" => checks::c01::replay(&v["case"], &mut rep),
                 "C03" => checks::c03::replay(&v["case"], &mut rep),
                 "C04" => checks::c04::replay(&v["case"], &mut rep),
+                "C06" => checks::c06::replay(&v["case"], &mut rep),
+                "C07" => checks::c07::replay(&v["case"], &mut rep),
                 "C08" => checks::c08::replay(&v["case"], &mut rep),
                 "C19" => checks::c19::replay(&v["case"], &mut rep),
                 "C20" => checks::c20::replay(&v["case"], &mut rep),
